@@ -1,3 +1,3 @@
 SPECIFICATION Spec
-CONSTANTS MaxConj = 3 MaxAlt = 3 Sample = 22
+CONSTANTS MaxConj = 3 MaxAlt = 3 Seed = 1 Sample = 22
 INVARIANTS Swap2 Rot3 Idem DefaultWithinValue
